@@ -501,6 +501,7 @@ type FuncContract struct {
 	Afters    []afterDef
 	Proves    []Clause // postconditions verified against the body even in an assumed contract
 	PerSite   bool // check every postcondition at each return site separately (smaller queries)
+	Splits    []Clause // case splits over entry-state conditions: an undecided obligation is retried under E and under !E
 	ReplayExpr string // Go boolean expression over p_<param> / r_<result>: the postcondition, for replaying models
 	ReplayHelp string // helper file under /verif/replay appended to the generated test
 	Atomic     bool
@@ -562,7 +563,7 @@ var clauseKeywords = map[string]bool{
 	"property": true, "spec": true, "axiom": true, "lemma": true, "func": true, "requires": true, "ensures": true,
 	"modifies": true, "pure": true, "inline": true, "assume": true, "loop": true, "invariant": true, "decreases": true,
 	"unroll": true, "logical": true, "sort": true, "noreturn": true, "nilable": true, "trusted": true, "alloc_bound": true,
-	"const": true, "stablefield": true, "opaque": true, "nilchecks": true, "let": true, "after": true, "ghost": true, "ghostfield": true, "macro": true, "mapinv": true, "replay": true, "replayhelp": true, "atomic": true, "persite": true, "proves": true, "defines": true, "objinv": true,
+	"const": true, "stablefield": true, "opaque": true, "nilchecks": true, "let": true, "after": true, "ghost": true, "ghostfield": true, "macro": true, "mapinv": true, "replay": true, "replayhelp": true, "atomic": true, "persite": true, "split": true, "proves": true, "defines": true, "objinv": true,
 }
 
 type rawClause struct {
@@ -779,12 +780,14 @@ func (db *ContractDB) LoadFile(path string) error {
 				return fmt.Errorf("%s:%d: clause %q outside a func", path, rc.line, rc.kw)
 			}
 			switch rc.kw {
-			case "requires", "ensures", "proves", "invariant", "decreases", "defines":
+			case "requires", "ensures", "proves", "invariant", "decreases", "defines", "split":
 				cl, err := mkClause(rc)
 				if err != nil {
 					return err
 				}
 				switch rc.kw {
+				case "split":
+					cur.Splits = append(cur.Splits, cl)
 				case "requires":
 					cur.Requires = append(cur.Requires, cl)
 				case "ensures":
